@@ -303,6 +303,8 @@ var vcKey = []byte("12345678901234567890") // 20 bytes like a sha1
 // ---- C12 scenario: crash enumeration -----------------------------------------------------------
 
 type c12Params struct {
+	FaultKind string `json:"fault_kind"` // "" or "crash": process death; "error": the n-th operation fails with Errno
+	Errno     string `json:"errno"`
 	Compress bool   `json:"compress"`
 	Restore  bool   `json:"restore"`  // a complete entry for the key exists before the crashed Store
 	SameTree bool   `json:"sametree"` // the re-stored tree equals the published one
@@ -371,13 +373,20 @@ func runC12OnceLog(t *testing.T, root string, p c12Params, n int64) (ops int64, 
 			if p.Tear {
 				arg = ""
 			}
-			verifsim.SetFaultPlan([]verifsim.Fault{{Kind: "crash", At: n, Arg: arg}}, p.Seed)
+			if p.FaultKind == "error" {
+				verifsim.SetFaultPlan([]verifsim.Fault{{Kind: "error", At: n, Arg: p.Errno}}, p.Seed)
+			} else {
+				verifsim.SetFaultPlan([]verifsim.Fault{{Kind: "crash", At: n, Arg: arg}}, p.Seed)
+			}
 		}
 		fin := s.RunTasks([]verifsim.TaskSpec{{ID: "A", Proc: "A", Fn: func() { c.Store(tA, vcKey, p.Tree2.Outs) }}})
 		ops = verifsim.FSOps()
 		oplog = verifsim.OpLog()
 		verifsim.KeepOpLog = false
 		fired = !fin["A"]
+		if p.FaultKind == "error" {
+			fired = n > 0 && ops >= n
+		}
 		verifsim.ResetFS()
 		// "restart": a fresh process with a fresh cache object retrieves into an empty out dir
 		c2 := env.newCache()
@@ -422,7 +431,14 @@ func runC12OnceLog(t *testing.T, root string, p c12Params, n int64) (ops int64, 
 	if n == 0 {
 		cls = "wrong-tree-after-store"
 	}
-	return ops, cls, fmt.Sprintf("Retrieve reported a hit but restored %v; complete trees are %v (new) / %v (old, restore=%v); crash before op %d of Store, compress=%v", got, m2, m1, p.Restore, n, p.Compress), fired, oplog
+	what := "crash before"
+	if p.FaultKind == "error" {
+		what = p.Errno + " injected at"
+		if n > 0 {
+			cls = "partial-hit-after-io-error"
+		}
+	}
+	return ops, cls, fmt.Sprintf("Retrieve reported a hit but restored %v; complete trees are %v (new) / %v (old, restore=%v); %s op %d of Store, compress=%v", got, m2, m1, p.Restore, what, n, p.Compress), fired, oplog
 }
 
 // c12Finding names the known defect a failing crash history matches, if any: the crash landed
@@ -441,12 +457,20 @@ func c12Finding(p c12Params, cls string, n int64, oplog []string) string {
 	return "C12-restore-delete-not-atomic"
 }
 
-func scenarioC12(t *testing.T, root string, seed uint64, replay *c12Params, tier string) vcResult {
+func scenarioC12(t *testing.T, root string, seed uint64, replay *c12Params, tier string, errMode bool) vcResult {
 	p := genC12(seed)
+	if errMode {
+		r := verifsim.NewRand(verifsim.SubSeed(seed, "c12e"))
+		p.FaultKind = "error"
+		p.Errno = []string{"EIO", "ENOSPC", "EACCES", "EXDEV"}[r.Intn(4)]
+	}
 	if replay != nil {
 		p = *replay
 	}
-	res := vcResult{Mode: "c12", Seed: seed, Stats: map[string]int64{}, Params: map[string]interface{}{"compress": p.Compress, "restore": p.Restore, "sametree": p.SameTree, "tear": p.Tear, "outs": p.Tree1.Outs, "entries": len(p.Tree2.Entries)}}
+	res := vcResult{Mode: "c12", Seed: seed, Stats: map[string]int64{}, Params: map[string]interface{}{"compress": p.Compress, "restore": p.Restore, "sametree": p.SameTree, "tear": p.Tear, "outs": p.Tree1.Outs, "entries": len(p.Tree2.Entries), "fault": p.FaultKind + p.Errno}}
+	if p.FaultKind == "error" {
+		res.Mode = "c12e"
+	}
 	points := []int64{}
 	if p.CrashAt > 0 {
 		points = append(points, p.CrashAt)
@@ -467,10 +491,14 @@ func scenarioC12(t *testing.T, root string, seed uint64, replay *c12Params, tier
 		_, cls, detail, fired, oplog := runC12OnceLog(t, root, p, n)
 		res.Evals++
 		if fired {
-			res.Stats["crashes_fired"]++
+			if p.FaultKind == "error" {
+				res.Stats["io_errors_injected"]++
+			} else {
+				res.Stats["crashes_fired"]++
+			}
 			if len(p.Tree2.Entries) >= 2 {
 				res.Nontrivial++
-				res.Sigs = append(res.Sigs, fmt.Sprintf("c12/%d/%d", seed, n))
+				res.Sigs = append(res.Sigs, fmt.Sprintf("c12%s/%d/%d", p.FaultKind, seed, n))
 			}
 		}
 		if cls != "" {
@@ -748,7 +776,14 @@ func TestVerifCache(t *testing.T) {
 				rp = &c12Params{}
 				must(json.Unmarshal(run.Replay, rp))
 			}
-			res = scenarioC12(t, root, seed, rp, run.Tier)
+			res = scenarioC12(t, root, seed, rp, run.Tier, false)
+		case "c12e":
+			var rp *c12Params
+			if len(run.Replay) > 0 {
+				rp = &c12Params{}
+				must(json.Unmarshal(run.Replay, rp))
+			}
+			res = scenarioC12(t, root, seed, rp, run.Tier, true)
 		case "c12m":
 			if len(run.Replay) > 0 {
 				var rp struct {
